@@ -507,6 +507,10 @@ var operations = []opBody{
 		_ = querylog.VerifC08Flush(a.qlog)
 		return ""
 	}},
+	{"bg-querylog-flush-after-buffer-filled", func(a *asm) string {
+		querylog.VerifC05FlushAfterFill(a.qlog)
+		return ""
+	}},
 	{"bg-querylog-rotate", func(a *asm) string {
 		querylog.VerifC05Rotate(a.qlog)
 		_ = querylog.VerifC05ForceRotate(a.qlog)
